@@ -403,10 +403,7 @@ theorem blind_ext_instances :
       some (blindExt 2 4 5 1 1 [[[1], [2]], [[3], [4]], [[5], [6]], [[7], [-8]]] [3, a] [1]) =
         (lutRotate 2 (3 + a) [[[1], [2]], [[3], [4]], [[5], [6]], [[7], [-8]]])[0]?) := by decide
 
-/- FULL STATEMENT (not proved): for every binary block key and every mod-switched ciphertext
-`blindExt n ext … data (b :: a) s = (lutRotate n (b + Σ a_i s_i) data)[0]` (for digits strictly inside the
-balanced range, so that re-normalisation is the identity).  The plaintext-level model is tied to the real
-loop bit for bit on the decrypted limbs, and the decrypted limbs to the clear rotation. -/
+/- The general statement is `blind_ext_rotates` / `blind_ext_eval` below. -/
 
 /-! ### The accumulator loops compute the rotation by the mod-switched phase -/
 
@@ -496,5 +493,115 @@ theorem blind_ext_eval (n ext b kLut k step block q : Nat) (f : List Int) (hpow 
     (((step / 2 : Nat) : Int) - (b0 + blkPhase (List.zip a sk)))
   rw [this]
   simp only [← hdiv]
+
+/-- **Block-binary loop (`execute_block_binary`, `ext = 1`) and the plain CGGI loop (`execute_standard`, the
+instance `block = 1`).**  For every block size, every `n_lwe = block·q`, every mod-switched ciphertext and every
+binary block key: the accumulator is `X^{b₀ + Σ a_i s_i}·LUT` — no range condition on the `a_i` (the ring
+rotation is total). -/
+theorem blind_plain_rotates {n size : Nat} (b block q : Nat) (hb : 1 ≤ b) (hb2 : b ≤ 63) (hblock : 0 < block)
+    (lut0 : List Vec) (hsh : Shaped n size lut0) (hsym : SymP b lut0) (b0 : Int) (a sk : List Int)
+    (hq : (List.zip a sk).length = block * q)
+    (hkey : ∀ blk ∈ chunksExact block (List.zip a sk).length (List.zip a sk), BinBlock blk) :
+    blindPlain b block lut0 (b0 :: a) sk = rotate (b0 + blkPhase (List.zip a sk)) lut0 := by
+  have hflat := chunksExact_flatten block hblock q (List.zip a sk) _ hq (Nat.le_refl _)
+  rw [blindPlain_eq, plain_fold_blocks b hb hb2 lut0 (symP_inRange b hb2 lut0 hsym) _ _ b0
+    (rotate_shaped b0 lut0 hsh) (rotate_sym b hb2 b0 lut0 hsym) rfl hkey, sum_flatten_phase, hflat]
+
+/-- plain CGGI (`block = 1`): every key in `{0,1}^n` is a block key with blocks of one coefficient -/
+theorem blind_standard_rotates {n size : Nat} (b : Nat) (hb : 1 ≤ b) (hb2 : b ≤ 63) (lut0 : List Vec) (hsh : Shaped n size lut0)
+    (hsym : SymP b lut0) (b0 : Int) (a sk : List Int) (hbin : ∀ s ∈ sk, s = 0 ∨ s = 1) :
+    blindPlain b 1 lut0 (b0 :: a) sk = rotate (b0 + blkPhase (List.zip a sk)) lut0 := by
+  apply blind_plain_rotates b 1 (List.zip a sk).length hb hb2 (by decide) lut0 hsh hsym b0 a sk (by simp)
+  -- every chunk of size 1 is a single pair
+  have hsingle : ∀ (fuel : Nat) (l : List (Int × Int)), (∀ p ∈ l, p.2 = 0 ∨ p.2 = 1) → ∀ blk ∈ chunksExact 1 fuel l, BinBlock blk := by
+    intro fuel
+    induction fuel with
+    | zero => intro l _ blk h; simp [chunksExact] at h
+    | succ f ih =>
+      intro l hl blk h
+      unfold chunksExact at h
+      split at h
+      · simp at h
+      · rcases List.mem_cons.1 h with h | h
+        · subst h
+          cases l with
+          | nil => simp at *
+          | cons p t =>
+            simp only [List.take_succ_cons, List.take_zero]
+            rcases hl p List.mem_cons_self with h0 | h1
+            · left; intro x hx; simp at hx; subst hx; exact h0
+            · right; exact ⟨[], p.1, [], by simp [← h1], by simp, by simp⟩
+        · exact ih _ (fun p hp => hl p (List.mem_of_mem_drop hp)) blk h
+  apply hsingle
+  intro p hp
+  exact hbin p.2 (List.of_mem_zip hp).2
+
+example : blindPlain 5 2 [[1], [2], [3], [4]] [1, 3, 5, -2, 7] [0, 1, 0, 0] = rotate (1 + 5) [[1], [2], [3], [4]] := by decide
+example : blindPlain 5 1 [[1], [2], [3], [4]] [1, 3, 5, -2] [1, 0, 1] = rotate (1 + 3 + -2) [[1], [2], [3], [4]] := by decide
+
+/-- **Single-polynomial blind rotation evaluates the table** (`ext = 1`, standard and block-binary): constant
+coefficient `± enc(f[⌊u/step⌋]·scale)`, `u = (drift − (b₀ + Σ a_i s_i)) mod 2N`, minus exactly when `u ≥ N`. -/
+theorem blind_plain_eval (n b kLut k step block q : Nat) (f : List Int) (hn : 0 < n) (hn2 : 2 * (n : Int) < 2 ^ 62) (hb : 1 ≤ b)
+    (hb2 : b ≤ 63) (hlen : 1 ≤ f.length) (hdiv : n = f.length * step)
+    (hbits : maxBitSize f + k % b < 64) (hl1 : 1 ≤ (k + b - 1) / b) (hl2 : (k + b - 1) / b ≤ (kLut + b - 1) / b)
+    (hsym : SymP b (tableF b ((kLut + b - 1) / b) ((k + b - 1) / b) step (if k % b ≠ 0 then 2 ^ (b - k % b) else 1) f))
+    (hblock : 0 < block) (b0 : Int) (a sk : List Int) (hq : (List.zip a sk).length = block * q)
+    (hkey : ∀ blk ∈ chunksExact block (List.zip a sk).length (List.zip a sk), BinBlock blk) :
+    ∃ T p0, lutSet n 1 b kLut f k = .ok T ∧ T.data = [p0] ∧
+      (blindPlain b block p0 (b0 :: a) sk)[0]? =
+        (let u := ((((step / 2 : Nat) : Int) - (b0 + blkPhase (List.zip a sk))) % (2 * (n : Int))).toNat
+         (f[(u % n) / step]?).map fun fi =>
+           let v := enc b ((kLut + b - 1) / b) ((k + b - 1) / b) (w64 (fi * (if k % b ≠ 0 then 2 ^ (b - k % b) else 1)))
+           if u < n then v else negV v) := by
+  have hset := lutSet_ext1 n b kLut k step f hn hn2 hb hlen hdiv hbits hl1 hl2
+  have hstep : 0 < step := by
+    rcases Nat.eq_zero_or_pos step with h | h
+    · subst h; omega
+    · exact h
+  set F' := tableF b ((kLut + b - 1) / b) ((k + b - 1) / b) step (if k % b ≠ 0 then 2 ^ (b - k % b) else 1) f with hF'
+  have hF'len : F'.length = n := by rw [tableF_length, hdiv]
+  have hF'r : InRange F' := symP_inRange b hb2 F' hsym
+  have hF'sh : Shaped n ((kLut + b - 1) / b) F' := ⟨hF'len, tableF_vec_length _ _ _ _ _ _⟩
+  refine ⟨_, rotate (-((step / 2 : Nat) : Int)) F', hset, rfl, ?_⟩
+  rw [blind_plain_rotates b block q hb hb2 hblock _ (rotate_shaped _ _ hF'sh) (rotate_sym b hb2 _ _ hsym) b0 a sk hq hkey]
+  rw [coeff0_rotate_rotate F' hF'r n hF'len hn]
+  have := sext_tableF b ((kLut + b - 1) / b) ((k + b - 1) / b) step (if k % b ≠ 0 then 2 ^ (b - k % b) else 1) f hstep hlen
+    (((step / 2 : Nat) : Int) - (b0 + blkPhase (List.zip a sk)))
+  rw [this]
+  simp only [← hdiv]
+
+/-- **mod_switch_2n ∘ LWE phase: the exact error of the rotation index.**  Radix above the index width
+(`d = base2k − log2(n) ≥ 1`, the branch of `mod_switch_2n_top`): with `x₀ :: xs` the sign-applied top-limb digits
+of `(b, a_1, …)`, every coefficient is switched to `⌊(x + 2^{d-1})/2^d⌋` and, for any key `s`, the index used by
+the blind rotation satisfies
+
+    idx · 2^d = Φ + E,   Φ = x₀ + Σ x_i s_i  (the top-limb phase),   E = (2^{d-1} − r₀) + Σ (2^{d-1} − r_i)·s_i,
+
+`r = (x + 2^{d-1}) mod 2^d` the per-coefficient rounding remainder; for a binary key `|E| ≤ (1 + Σ s_i)·2^{d-1}`,
+i.e. `idx = Φ·n/2^{base2k}` up to `±(hw(s) + 1)/2` — the documented rounding drift, with its exact value. -/
+theorem index_error (d : Nat) (hd : 1 ≤ d) (x0 : Int) (xs sk : List Int) (hbin : ∀ s ∈ sk, s = 0 ∨ s = 1) :
+    (msRound d x0 + blkPhase (List.zip (xs.map (msRound d)) sk)) * 2 ^ d =
+      (x0 + blkPhase (List.zip xs sk)) +
+        ((2 ^ (d - 1) - msRem d x0) + blkPhase (List.zip (xs.map fun x => 2 ^ (d - 1) - msRem d x) sk)) ∧
+    ((2 ^ (d - 1) - msRem d x0) + blkPhase (List.zip (xs.map fun x => 2 ^ (d - 1) - msRem d x) sk)).natAbs
+      ≤ (1 + sk.sum.natAbs) * 2 ^ (d - 1) := by
+  have h1 := phase_error_sum d xs sk
+  have h2 := msRound_mul d x0
+  have h3 := phase_error_bound d hd xs sk hbin
+  have h4 := msErr_bound d hd x0
+  refine ⟨by linear_combination h2 + h1, ?_⟩
+  generalize blkPhase (List.zip (xs.map fun x => 2 ^ (d - 1) - msRem d x) sk) = E at *
+  generalize (2:Int) ^ (d - 1) - msRem d x0 = e at *
+  have ha : (e + E).natAbs ≤ e.natAbs + E.natAbs := Int.natAbs_add_le e E
+  have he : e.natAbs ≤ 2 ^ (d - 1) := by
+    zify; rw [abs_le]; constructor <;> omega
+  rw [Nat.add_mul, Nat.one_mul]
+  omega
+
+/-- the switched values of the model are `msRound` of the sign-applied digits (`mod_switch_2n_top`) -/
+example : modSwitch2n 64 12 [[1000, -2048, 37]] false = .ok ([1000, -2048, 37].map (msRound 6)) := by rfl
+
+/-- d = 6, digits (1000 | −2048, 37), key (1, 1): idx = 16 − 32 + 1 = −15, Φ = −1011, E = 51 -/
+example : (msRound 6 1000 + blkPhase (List.zip ([-2048, 37].map (msRound 6)) [1, 1])) * 2 ^ 6 = (1000 + (-2048 + 37)) + 51 := by decide
 
 end C14
